@@ -210,6 +210,13 @@ func (g *progGen) expr(t *gty, depth int) string {
 				return g.call(f, depth-1)
 			}
 			return numLits[g.pick(len(numLits))]
+		case 12:
+			// pure math / string built-ins with a num result (modelled through coq/Builtins.v)
+			if g.pick(3) == 0 {
+				return "(index " + paren(g.expr(tStr, depth-1)) + " " + paren(g.expr(tStr, depth-1)) + ")"
+			}
+			fn := []string{"floor", "ceil", "round"}[g.pick(3)]
+			return "(" + fn + " " + paren(g.expr(tNum, depth-1)) + ")"
 		default:
 			return "(" + g.expr(tNum, depth-1) + ")"
 		}
@@ -217,7 +224,20 @@ func (g *progGen) expr(t *gty, depth int) string {
 		if leaf {
 			return strLits[g.pick(len(strLits))]
 		}
-		switch g.pick(10) {
+		switch g.pick(12) {
+		case 10:
+			// pure string built-ins (modelled through coq/Builtins.v; non-ASCII case mapping is an oracle)
+			switch g.pick(3) {
+			case 0:
+				fn := []string{"upper", "lower"}[g.pick(2)]
+				return "(" + fn + " " + paren(g.expr(tStr, depth-1)) + ")"
+			case 1:
+				return "(trim " + paren(g.expr(tStr, depth-1)) + " " + paren(g.expr(tStr, depth-1)) + ")"
+			default:
+				return "(replace " + paren(g.expr(tStr, depth-1)) + " " + paren(g.expr(tStr, depth-1)) + " " + paren(g.expr(tStr, depth-1)) + ")"
+			}
+		case 11:
+			return "(join (split " + paren(g.expr(tStr, depth-1)) + " " + paren(g.expr(tStr, depth-1)) + ") " + paren(g.expr(tStr, depth-1)) + ")"
 		case 0, 1:
 			return g.expr(tStr, depth-1) + " + " + g.expr(tStr, depth-1)
 		case 2:
@@ -316,6 +336,9 @@ func (g *progGen) expr(t *gty, depth int) string {
 				return "[]"
 			}
 			return "[" + strings.Join(els, " ") + "]"
+		}
+		if t.sub.k == "string" && g.pick(5) == 0 {
+			return "(split " + paren(g.expr(tStr, depth-1)) + " " + paren(g.expr(tStr, depth-1)) + ")"
 		}
 		switch g.pick(6) {
 		case 0, 1:
